@@ -394,7 +394,7 @@ class Task(Value, Generic[P, R]):
             hash_includes=self._hash_includes,
             task_options_base=self._task_options_base,
             task_options_override=new_task_options_update,
-            export_options=self._export_options,
+            export_options=set(self._export_options),
         )
 
     def export_options(self, **task_options_update: Any) -> "Task[P, R]":
